@@ -13,14 +13,15 @@ def plan(tier, seed):
     fast = lambda **k: dict({'configs': 'fast'}, **k)
     if tier == 'quick':
         by_mode = {
-            'absent': [fast(n=3, m=2, labels='ints', schemes='six_t'), fast(n=2, m=3, labels='ints', schemes='six_t'),
-                       fast(n=3, m=3, labels='ints', schemes='two_t', per=60, configs='bio_det', flags='all_only'),
-                       fast(n=4, m=2, labels='ints', schemes='two', per=60, flags='all_only', configs='fast_det'),
+            'absent': [fast(n=3, m=2, labels='ints', schemes='six_t', reuse=False), fast(n=3, m=2, labels='ints', schemes='two'),
+                       fast(n=2, m=3, labels='ints', schemes='six_t', reuse=False),
+                       fast(n=3, m=3, labels='ints', schemes='one_t', per=60, configs='bio_det', flags='all_only'),
+                       fast(n=4, m=2, labels='ints', schemes='two_h', per=60, flags='all_only', configs='fast_det'),
                        fast(n=3, m=2, labels=alt, schemes='two'),
                        dict(n=3, m=2, labels='ints', schemes='two', configs='cbc', per=6),
                        dict(n=1, m=2, labels='ints', schemes='two', configs='all'),
                        dict(n=3, m=2, labels='ints', schemes='one', configs='fast_det', premutate=True, reuse=False)],
-            'absent_enum': [dict(n=3, m=2, labels='ints', schemes='six', configs='solver'),
+            'absent_enum': [dict(n=3, m=2, labels='ints', schemes='three', configs='solver'),
                             dict(n=3, m=2, labels='ints', schemes='one', configs='solver', premutate=True, reuse=False, flags='one'),
                             dict(space='ext43', labels='ints', schemes='ext1', configs='solver', per=300, reuse=False)],
             'stub': [dict(n=3, m=2, labels='ints', schemes='six', configs='solver'),
